@@ -56,6 +56,12 @@ CHECKS = {
         text="Generated Python SDKs are imported in-process; on generated instances (many invariants failing singly and in combination) the multiset of (path, description) errors from verify() is compared with direct evaluation of the meta-model's own lambdas by Python (E4); pattern/transpilable functions are compared value-for-value.",
         note="Python itself is the reference semantics; instances are built through the generated constructors; invariants in shapes the generator rejects are skipped (counted).",
     ),
+    "C09": dict(
+        category="exploration",
+        technique="cross-SDK differential: one generated driver per language and model, run with node 22 (type transform), javac/java and g++ with ASan/UBSan, against the imported Python SDK as reference",
+        text="Per model the four SDKs are generated by the real generators; the same abstract instances (half invariant-satisfying, half arbitrary) and mutated JSON documents are fed to each driver; (path, cause) multisets, re-serialised JSON, accept/reject of mutated documents, constant and enum tables must agree with the Python SDK; zero sanitizer reports for C++.",
+        note="Java and C++ cannot do lists of non-classes (workload restricted accordingly); C++ has no JSON leg (nlohmann/json.hpp absent): instances are built by constructor code; ints within +-2^53, finite floats; 27 genuine cross-SDK differences of the pinned generators are listed in known_findings.json (golden outputs forbid repair).",
+    ),
     "C10": dict(
         category="exploration",
         technique="round-trip monitor and exception-class monitor on the generated (de)serialisers under hostile values and mutated documents",
